@@ -166,9 +166,18 @@ class Types:
             return self.typemap['nifly::' + t]
         return None
 
-    def is_vec(self, qual, desugared=None):
+    def is_vec(self, qual, desugared=None, ptr=False):
         for t in (desugared, qual):
-            if t and re.match(r'^(const )?(std::)?(vector|deque)<', self.strip(t)):
+            if not t:
+                continue
+            t = self.strip(t)
+            if t.endswith('*'):
+                if not ptr:
+                    continue
+                t = t[:-1].strip()
+            elif ptr:
+                continue
+            if re.match(r'^(std::)?(vector|deque)<', t):
                 return True
         return False
 
@@ -433,11 +442,14 @@ class Printer:
         o = obj
         while o.get('kind') == 'ImplicitCastExpr' and o.get('castKind') in ('NoOp', 'LValueToRValue'):
             o = o['inner'][0]
-        if self.is_vec_expr(o):
+        q_, d_ = self.qt(o)
+        if self.is_vec_expr(o) or (me.get('isArrow') and self.T.is_vec(q_, d_, ptr=True)):
             os_ = self.e(o)
+            ct = self.ctype_of(o)
             if me.get('isArrow'):
                 os_ = '(*%s)' % os_
-            ct = self.ctype_of(o)
+                ct = ct.rstrip('* ').strip()
+                self.fire('vec:through-pointer')
             if m == 'size':
                 self.fire('vec:size')
                 return '%s.size' % os_
